@@ -8,7 +8,8 @@ EXTENDS Entries, Policy, SequencesExt, TLC
 CONSTANTS OpenCounts,      \* close releases exactly one handle and the document stays usable until the last one
           SyncSticky,      \* re-opening never clears the sync flag
           GateSync,        \* remote-insert / reconciliation requests require the sync flag
-          GateOpen         \* reads, writes and subscriptions require an open document
+          GateOpen,        \* reads, writes and subscriptions require an open document
+          DropClearsSettings   \* dropping a document also drops its download policy and useful peers (FALSE: they outlive it)
 
 NoDoc == [cap |-> "none", recs |-> {}, peers |-> <<>>, pol |-> DefaultPolicy]
 \* a head report as sent by a peer: a sequence of <<author, timestamp>> pairs with distinct authors
@@ -83,7 +84,7 @@ ActorStep(st, q) ==
          LET st1 == IF ~open THEN st ELSE IF o.handles = 1 THEN DelOpen(st, d)
                                            ELSE SetOpen(st, d, [o EXCEPT !.handles = @ - 1])
          IN IF IsOpen(st1, d) THEN Fail(st1, "StillOpen")
-            ELSE Ok(SetDoc(st1, d, NoDoc), <<>>)
+            ELSE Ok(SetDoc(st1, d, IF DropClearsSettings THEN NoDoc ELSE [NoDoc EXCEPT !.pol = doc.pol, !.peers = doc.peers]), <<>>)
     [] q.op = "ExportSecret" ->
          IF ~open THEN Fail(st, "NotOpen")
          ELSE IF doc.cap # "write" THEN Fail(st, "ReadOnly") ELSE Ok(st, <<>>)
